@@ -10,7 +10,7 @@ open Genshi Genshi.Match Genshi.Sexp
            | ( REG spec ( bitem … ) buffer once recursive )     the three attribute values, N = absent
      spec := ( one name|N pos|N ) | ( chain ( ( name … ) … ) )
      bitem := ( S name ) | ( E name ) | ( T text ) | ( SEL dot|node|elems|text|nodeText ) | ( SEL named name )
-  answer: ( ok ( event … ) ) | unmodelled | ( err fuel )
+  answer: ( ok ( event … ) ( hits per registered template … ) ) | unmodelled | ( err fuel )
 -/
 
 def ev? : Sexp → Option Event
@@ -75,8 +75,8 @@ def handle : List Sexp → Option Sexp
       let fuel ← fuel.toNat?
       let items ← items.mapM item?
       if !allBuffered items then pure (.atom "unmodelled") else
-      match render fuel items with
-      | some out => pure (.list [.atom "ok", .list (out.map evOut)])
+      match run fuel 0 none items [] with
+      | some (mts, out) => pure (.list [.atom "ok", .list (out.map evOut), .list (mts.map fun t => ofNat t.hits)])
       | none => pure (.list [.atom "err", .atom "fuel"])
   | _ => none
 
